@@ -113,7 +113,18 @@ def run(ctx):
     ctx.rule("C19-R1", "frame condition: only .island and .source are "
              "written on the input sources")
     n1 = 0
-    for fi in (rd, rg, prog.func("cluster.regroup_vectorized")):
+    # the regroup functions and the module-private helpers they call
+    from .. import callgraph
+    g_ = callgraph.build(prog)
+    fam = []
+    for root in (rd, rg, prog.func("cluster.regroup_vectorized")):
+        for q in sorted(callgraph.reachable(g_, [root.qualname])):
+            f_ = prog.functions[q]
+            if f_.module == cl.name and f_ not in fam and (
+                    f_ in (rd, rg) or f_.name.startswith("_") or
+                    f_.name == "regroup_vectorized"):
+                fam.append(f_)
+    for fi in fam:
         for s in walk_no_nested(fi.node):
             tg = []
             if isinstance(s, ast.Assign):
@@ -136,12 +147,25 @@ def run(ctx):
                 n1 += 1
                 ctx.check("C19-R1", fi, "dynamic store " + norm(s, 60),
                           False, "setattr/delattr on a source", node=s)
-    ctx.floor("C19-R1", n1, 4, "attribute stores in the regroup functions")
+    ctx.floor("C19-R1", n1, 2, "attribute stores in the regroup functions")
     # ---------------------------------------------------------------- R2
     ctx.rule("C19-R2", "labels: island = enumerate(groups) index; source = "
              "index in enumerate(sorted(group, key)) with key strictly "
              "decreasing in peak_flux")
-    for fi in (rd, rg):
+    for root in (rd, rg):
+        # the labelling loop sits in the function itself or in a private
+        # helper it calls
+        holders = [f_ for f_ in fam if f_.qualname in callgraph.reachable(
+            g_, [root.qualname]) and any(
+                isinstance(x, ast.Assign) and
+                isinstance(x.targets[0], ast.Attribute) and
+                x.targets[0].attr == "island"
+                for x in walk_no_nested(f_.node))]
+        if len(holders) != 1:
+            raise AnalysisError("C19-R2: labelling loop of %s not found "
+                                "(%d candidates)" % (root.short,
+                                                     len(holders)))
+        fi = holders[0]
         outer = [l for l in walk_no_nested(fi.node) if isinstance(l, ast.For)
                  and isinstance(l.iter, ast.Call) and
                  norm(l.iter.func) == "enumerate" and
@@ -161,6 +185,9 @@ def run(ctx):
         if ok:
             comp, src = [norm(e) for e in inner[0].target.elts]
             srt = inner[0].iter.args[0]
+            if isinstance(srt, ast.Name):
+                from .c08 import _resolve_local
+                srt = _resolve_local(fi.node, srt)
             ok = isinstance(srt, ast.Call) and norm(srt.func) == "sorted" \
                 and norm(srt.args[0]) == grp
             body = [norm(s).replace(" ", "") for s in inner[0].body]
@@ -227,20 +254,35 @@ def run(ctx):
                     return ra if lc.elt.attr == "ra" else dec
             return super().call(n)
     tr = E(prog, cl, {})
-    stm = []
-    for s in rd.node.body:
-        if isinstance(s, (ast.Assign, ast.AugAssign)) and \
-                {norm(t) for t in (s.targets if isinstance(s, ast.Assign)
-                                   else [s.target])} & {"ras", "decs", "x",
-                                                        "y", "z"}:
-            stm.append(s)
-    try:
-        tr.exec(stm)
-    except sym.Untranslatable as e:
-        raise AnalysisError("C19-R4: %s" % e)
-    x, y, z = tr.env.get("x"), tr.env.get("y"), tr.env.get("z")
+    hs = [c for c in walk_no_nested(rd.node) if isinstance(c, ast.Call) and
+          norm(c.func) in ("np.hstack", "np.column_stack", "np.stack",
+                           "np.vstack", "np.array")
+          and c.args and isinstance(c.args[0], (ast.List, ast.Tuple)) and
+          len(c.args[0].elts) == 3]
+    if not hs:
+        raise AnalysisError("C19-R4: the 3-column feature matrix was not "
+                            "found")
+    stm = [s for s in rd.node.body if isinstance(s, (ast.Assign,
+                                                     ast.AugAssign))
+           and s.lineno < hs[0].lineno]
+    for st in stm:
+        try:
+            tr.exec([st])
+        except sym.Untranslatable:
+            pass
+
+    def col(e):
+        # x[:, None] / x[:, np.newaxis] / x.reshape(-1, 1) / x
+        if isinstance(e, ast.Subscript):
+            e = e.value
+        if isinstance(e, ast.Call) and isinstance(e.func, ast.Attribute) \
+                and e.func.attr == "reshape":
+            e = e.func.value
+        return tr.env.get(norm(e))
+    x, y, z = [col(e) for e in hs[0].args[0].elts]
     if None in (x, y, z):
-        raise AnalysisError("C19-R4: x/y/z not all defined")
+        raise AnalysisError("C19-R4: columns of the feature matrix not "
+                            "translatable")
     R = sp.pi / 180
     ref = (sp.cos(ra * R) * sp.cos(dec * R), sp.sin(ra * R) * sp.cos(dec * R),
            sp.sin(dec * R))
@@ -251,11 +293,16 @@ def run(ctx):
     ctx.check("C19-R4", rd, "x^2+y^2+z^2 == 1",
               sym.is_zero(x ** 2 + y ** 2 + z ** 2 - 1),
               "the embedding is not on the unit sphere", node=stm[0])
-    hs = [c for c in walk_no_nested(rd.node) if isinstance(c, ast.Call) and
-          norm(c.func) in ("np.hstack", "np.column_stack", "np.stack")]
-    okh = bool(hs) and norm(hs[0].args[0]).replace(" ", "") == \
-        "[x[:,None],y[:,None],z[:,None]]"
-    ctx.check("C19-R4", rd, "feature matrix columns (x, y, z)", okh,
+    fits_ = [c for c in walk_no_nested(rd.node) if isinstance(c, ast.Call)
+             and isinstance(c.func, ast.Attribute) and c.func.attr == "fit"
+             and c.args]
+    okh = bool(fits_) and (
+        any(x_ is hs[0] for x_ in ast.walk(fits_[0].args[0])) or
+        any(isinstance(d_, ast.Assign) and
+            norm(d_.targets[0]) == norm(fits_[0].args[0]) and
+            any(x_ is hs[0] for x_ in ast.walk(d_.value))
+            for d_ in walk_no_nested(rd.node)))
+    ctx.check("C19-R4", rd, "DBSCAN is fitted on the (x, y, z) matrix", okh,
               "DBSCAN must see the three Cartesian coordinates", node=rd.node)
     # ---------------------------------------------------------------- R5
     ctx.rule("C19-R5", "linking length: arcsec/60 -> arcmin; arcmin/60 -> "
@@ -313,22 +360,31 @@ def run(ctx):
     # ---------------------------------------------------------------- R6
     ctx.rule("C19-R6", "partition: group k = the sources whose label equals "
              "the k-th unique label")
-    lp = [l for l in walk_no_nested(rd.node) if isinstance(l, ast.For) and
-          "unique_labels" in norm(l.iter)]
+    # a loop or comprehension over the unique labels that selects the
+    # members with (labels == that label)
+    lp = []
+    for l in walk_no_nested(rd.node):
+        if isinstance(l, ast.For) and "unique_labels" in norm(l.iter):
+            tnames = names_in(l.target)
+            lp.append((l, tnames, l.body))
+        if isinstance(l, (ast.ListComp, ast.GeneratorExp)):
+            for gidx, g in enumerate(l.generators):
+                if "unique_labels" in norm(g.iter):
+                    lp.append((l, names_in(g.target), [ast.Expr(l.elt)]))
     ok = False
     if len(lp) == 1:
-        i_, l_ = [norm(e) for e in lp[0].target.elts]
-        # members of label l: a selection driven by (labels == l)
-        sel = [c for st in lp[0].body for c in ast.walk(st)
+        node_, tnames, body_ = lp[0]
+        sel = [c for st in body_ for c in ast.walk(st)
                if isinstance(c, ast.Compare) and len(c.ops) == 1 and
                isinstance(c.ops[0], ast.Eq) and
-               {norm(c.left), norm(c.comparators[0])} == {"labels", l_}]
-        other = [c for st in lp[0].body for c in ast.walk(st)
+               "labels" in {norm(c.left), norm(c.comparators[0])} and
+               ({norm(c.left), norm(c.comparators[0])} - {"labels"}) <=
+               tnames]
+        other = [c for st in body_ for c in ast.walk(st)
                  if isinstance(c, ast.Compare) and c not in sel and
                  "labels" in names_in(c)]
-        stores = [st for st in lp[0].body if isinstance(st, ast.Assign) and
-                  norm(st.targets[0]).replace(" ", "") == "groups[%s]" % i_]
-        ok = len(sel) == 1 and not other and len(stores) == 1
+        ok = len(sel) == 1 and not other
+    lp = [x[0] for x in lp]
     ul = [s for s in walk_no_nested(rd.node) if isinstance(s, ast.Assign) and
           norm(s.targets[0]) == "unique_labels"]
     ok = ok and len(ul) == 1 and norm(ul[0].value) == "set(labels)"
